@@ -149,7 +149,7 @@ def check(prop_id, tier, seed, replay=None):
                 inst_of[l.split(" ")[1]] = (h, {})
                 lines.append(l)
         if "conn" in plan["slices"]:
-            for l in T.conn_lines(h, flags.get("connClientDisconnectLegacy", False), flags.get("connConnectingOnlyFromDisconnected", False)):
+            for l in T.conn_lines(h, flags.get("connClientDisconnectLegacy", False), flags.get("connConnectingOnlyFromDisconnected", False)) + T.budget_lines(h):
                 inst_of[l.split(" ")[1]] = (h, {})
                 lines.append(l)
         if "asset" in plan["slices"]:
